@@ -290,6 +290,48 @@ func nonNegSource(v ssa.Value) bool {
 	return false
 }
 
+// boundedAtCallers: every static call site of p's function hands in, for p, a value that a
+// dominating test at the call site keeps within [lo, hi] (as far as needed).
+func (c *Ctx) boundedAtCallers(p *ssa.Parameter, needHi bool, hi *big.Int, needLo bool, lo *big.Int) bool {
+	f := p.Parent()
+	idx := -1
+	for i, q := range f.Params {
+		if q == p {
+			idx = i
+		}
+	}
+	if idx < 0 {
+		return false
+	}
+	sites := 0
+	okAll := true
+	for _, g := range c.RepoFns {
+		if c.isTestFile(g.Pos()) {
+			continue
+		}
+		eachCall(g, func(call ssa.CallInstruction) {
+			if call.Common().StaticCallee() != f || idx >= len(call.Common().Args) {
+				return
+			}
+			sites++
+			a := call.Common().Args[idx]
+			if needHi {
+				ub := upperBoundConst(a, call.Block())
+				if ub == nil || ub.Cmp(hi) > 0 {
+					okAll = false
+				}
+			}
+			if needLo && !nonNegSource(a) {
+				lb := lowerBoundConst(a, call.Block())
+				if lb == nil || lb.Cmp(lo) < 0 {
+					okAll = false
+				}
+			}
+		})
+	}
+	return sites > 0 && okAll
+}
+
 func (c *Ctx) ruleN1N2() {
 	nConv, nMake, nFn := 0, 0, 0
 	wb := c.wordBits()
@@ -334,6 +376,13 @@ func (c *Ctx) ruleN1N2() {
 					lb := lowerBoundConst(x.X, x.Block())
 					if lb == nil || lb.Cmp(dlo) < 0 {
 						why = append(why, "no dominating test excludes negative values")
+					}
+				}
+				if len(why) > 0 {
+					// the value may be a parameter of a small helper whose callers do the range test
+					if p, ok := x.X.(*ssa.Parameter); ok && c.boundedAtCallers(p, needHi, dhi, needLo, dlo) {
+						c.ok("N1", cons, x.Pos(), "narrowing conversion of a parameter that every caller bounds by a dominating range test")
+						return
 					}
 				}
 				if len(why) == 0 {
